@@ -154,7 +154,13 @@ pub fn execute(sc: &dyn Scenario, plan: &Plan, env: &Env) -> Rec {
     let prev_c = kernel::seams::clock_ns();
     kernel::seams::set_clock_ns(Some(kernel::sim::EPOCH_NS));
     kernel::seams::set_mono_ns(0);
+    kernel::exec::begin_run(plan.seed);
+    let (rc0, fs0) = (kernel::exec::REMOTE_CALLS.with(|c| c.get()), kernel::exec::FRESH_STARTS.with(|c| c.get()));
     sc.run(plan, env, &mut rec);
+    kernel::exec::end_run();
+    let (rc1, fs1) = (kernel::exec::REMOTE_CALLS.with(|c| c.get()), kernel::exec::FRESH_STARTS.with(|c| c.get()));
+    *rec.stats.probes.entry("library-calls-executed-in-a-party-process").or_insert(0) += rc1 - rc0;
+    *rec.stats.probes.entry("party-processes-started-fresh").or_insert(0) += fs1 - fs0;
     // the next run on this thread starts later on the monotonic clock than this one ended
     kernel::seams::advance_mono_base(4_000_000_000_000);
     kernel::seams::set_clock_ns(prev_c);
